@@ -139,7 +139,8 @@ CtorOf(cls) == IF FindMethod(cls, "__init__") # 0 THEN FindMethod(cls, "__init__
                ELSE IF FindMethod(cls, "constructor") # 0 THEN FindMethod(cls, "constructor")
                ELSE IF FindMethod(cls, "__construct") # 0 THEN FindMethod(cls, "__construct")
                ELSE FindMethod(cls, RowOf(cls).name)
-IsCtor(m) == RowOf(m).name \in CtorNames
+IsCtor(m) == \/ RowOf(m).name \in CtorNames
+             \/ ClassNamed(RowOf(m).name) # 0 /\ OwnMethod(ClassNamed(RowOf(m).name), RowOf(m).name) = m     \* java: named like its class
 Params(m) == LET r == RowOf(m) IN IF r.parameters = 0 THEN << >>
              ELSE SelectSeq(Children(r.parameters), LAMBDA p : p.op = "parameter_decl")
 
@@ -213,7 +214,9 @@ UnitScope ==
       \* a function of the program that is named like a configured source or sink is still that source / sink (the rule goes by name)
       valueOf(n) == IF n \in {"source", "source2", "sink", "sink2"} THEN VBuiltin(n)
                     ELSE IF \E r \in named : r.name = n
-                    THEN LET r == CHOOSE x \in named : x.name = n IN IF r.op = "method_decl" THEN VFun(r.id, 0) ELSE VCls(r.id)
+                    THEN LET r == IF \E x \in named : x.name = n /\ x.op = "class_decl" THEN CHOOSE x \in named : x.name = n /\ x.op = "class_decl"
+                                  ELSE CHOOSE x \in named : x.name = n
+                         IN IF r.op = "method_decl" THEN VFun(r.id, 0) ELSE VCls(r.id)
                     ELSE VBuiltin(n)
   IN
   [n \in Builtins \cup {r.name : r \in named} \cup {r.alias : r \in aliases} \cup {"lex__"} |->
@@ -303,8 +306,14 @@ Assign ==
         THEN /\ status' = "skip:overflow" /\ steps' = steps + 1 /\ UNCHANGED <<c, stack, envs, heap, out, nser, sinks, calls, defs>>
         ELSE Define(Cur.target, v)
 
-Decl == /\ Cur.op \in {"variable_decl", "global_stmt", "nonlocal_stmt", "pass_stmt", "parameter_decl", "import_stmt", "from_import_stmt"}
-        /\ Next1(IF Cur.op = "variable_decl" THEN Declare(envs, Act.ser, Cur.name) ELSE envs)
+(* a variable declared with a struct type (C: struct Rec r;  go: var r Rec) is the record itself: the declaration allocates it *)
+StructNamed(n) == n # "" /\ \E r \in ToSet(Rows) : r.op \in {"struct_decl", "type_decl"} /\ r.name = n
+Decl == /\ Cur.op \in {"variable_decl", "global_stmt", "nonlocal_stmt", "pass_stmt", "parameter_decl", "import_stmt", "from_import_stmt",
+                       "struct_decl", "type_decl"}
+        /\ IF Cur.op = "variable_decl" /\ StructNamed(Cur.data_type)
+           THEN LET hp2 == Append(heap, Obj("object", 0, Cur.id)) IN
+                GoK(AdvK(Kont), SetVar(Declare(envs, Act.ser, Cur.name), Act.ser, Cur.name, VRef(Len(hp2))), hp2, out)
+           ELSE Next1(IF Cur.op = "variable_decl" THEN Declare(envs, Act.ser, Cur.name) ELSE envs)
 
 (* nested declarations bind a value in the current scope *)
 MethodDecl == /\ Cur.op = "method_decl"
@@ -537,7 +546,7 @@ FieldRead ==
      ELSE LET v == FieldOf(r, PropKey(Cur.field_tok, Cur.field)) IN
           IF v.t = "undef" THEN Fail("no_such_field_" \o Cur.field) ELSE Define(Cur.target, v)
 
-Known == {"assign_stmt", "variable_decl", "global_stmt", "nonlocal_stmt", "pass_stmt", "parameter_decl", "import_stmt", "from_import_stmt",
+Known == {"assign_stmt", "variable_decl", "global_stmt", "nonlocal_stmt", "pass_stmt", "parameter_decl", "import_stmt", "from_import_stmt", "struct_decl", "type_decl",
           "method_decl", "class_decl", "if_stmt", "while_stmt", "for_stmt", "forin_stmt", "for_value_stmt", "break_stmt", "continue_stmt", "return_stmt",
           "call_stmt", "object_call_stmt", "new_array", "new_record", "new_object", "array_write", "array_read", "record_write", "field_write", "field_read"}
 Unknown == /\ Cur.op \notin Known /\ Fail("unknown_operation_" \o Cur.op)
